@@ -219,6 +219,53 @@ def gen_comb_history(rng):
     return e
 
 
+# ---------- stream 3: histories through library functions (implementation only: prefix programs vs the whole program) ----------
+
+def gen_lib_history(rng, nops):
+    """definitions v0..vn over arrays of numbers ('a') and arrays of arrays ('aa'), derived with //seq functions, where,
+    with / without, ++ and >>; every definition may use any earlier value"""
+    defs, kinds = [], []
+    start = rng.choice(["[1, 2, 0, 3, 4]", "[1, 2, 3]", "[0, 1, 0, 2, 0, 3]", "[5, 1, 2, 1, 3]"])
+    defs.append(start); kinds.append("a")
+    for _ in range(nops):
+        arrs = [i for i, k in enumerate(kinds) if k == "a"]
+        aas = [i for i, k in enumerate(kinds) if k == "aa"]
+        p = rng.choice(arrs)
+        q = rng.choice(arrs)
+        r = rng.random()
+        if aas and r < 0.2:
+            w = rng.choice(aas)
+            e, k = rng.choice([("//seq.join([9], v%d)" % w, "a"), ("v%d(0)" % w, "a"), ("//seq.join([], v%d)" % w, "a"), ("//seq.concat(v%d)" % w, "a")])
+        elif r < 0.32:
+            e, k = "//seq.split([%d], v%d)" % (rng.choice([0, 1, 2]), p), "aa"
+        elif r < 0.42:
+            e, k = "//seq.join([9], [v%d, [7]])" % p, "a"
+        elif r < 0.5:
+            e, k = "//seq.join([9, 9], [v%d, v%d])" % (p, q), "a"
+        elif r < 0.58:
+            e, k = "//seq.sub([%d], [7, 8], v%d)" % (rng.choice([0, 1, 2]), p), "a"
+        elif r < 0.64:
+            e, k = "//seq.concat([v%d, v%d])" % (p, q), "a"
+        elif r < 0.72:
+            e, k = "(v%d without (@: %d, @item: %d))" % (p, rng.randrange(0, 6), rng.randrange(0, 5)), "a"
+        elif r < 0.78:
+            e, k = "(v%d where .@ < %d)" % (p, rng.randrange(1, 4)), "a"
+        elif r < 0.83:
+            e, k = "(v%d where .@item != %d)" % (p, rng.randrange(0, 5)), "a"
+        elif r < 0.88:
+            e, k = rng.choice(["//seq.trim_prefix([1], v%d)" % p, "//seq.trim_suffix([4], v%d)" % p, "//seq.trim_prefix([0], v%d)" % p]), "a"
+        elif r < 0.94:
+            e, k = "(v%d ++ [%d])" % (p, rng.randrange(5, 9)), "a"
+        else:
+            e, k = "(v%d >> . + 1)" % p, "a"
+        defs.append(e); kinds.append(k)
+    return defs
+
+
+def lib_program(defs, upto):
+    return " ".join("let v%d = %s;" % (i, d) for i, d in enumerate(defs[:upto + 1])) + " [" + ", ".join("v%d" % i for i in range(upto + 1)) + "]"
+
+
 def main(tier, seed, replay=None):
     run = Run(PROP, tier, seed)
     vh, proof = prepare(PROP_FILES, thorough=(tier == "thorough"))
@@ -289,13 +336,61 @@ def main(tier, seed, replay=None):
     evalcheck.judge(run, gcases, gouts, gcodes, gfails,
                     "the list of all values of a branching history vs each value's own definition (reference interpreter)",
                     value_codes=(1, 2, 3), corr_codes=(4, 5, 6))
+    # stream 3
+    lib_hists = []
+    if replay:
+        rp3 = json.load(open(replay))
+        if rp3["case"].get("lib_defs"):
+            lib_hists = [rp3["case"]["lib_defs"]]
+    else:
+        lib_hists = [["[1, 2, 0, 3, 4]", "//seq.split([0], v0)", "//seq.join([9], v1)"],
+                     ["[1, 2, 3]", "(v0 without (@: 2, @item: 3))", "//seq.join([9], [v1, [7]])"],
+                     ["[1, 2, 3, 4]", "(v0 where .@ < 2)", "//seq.join([9], [v1, [5]])", "//seq.join([8], [v1, [6]])"]]
+        lib_hists += [gen_lib_history(rng, rng.randrange(2, 7)) for _ in range(60 if tier == "quick" else 1200)]
+    lreqs, lidx = [], []
+    for hi, defs in enumerate(lib_hists):
+        for k in range(len(defs)):
+            lidx.append((hi, k))
+            lreqs.append({"id": len(lreqs), "src": lib_program(defs, k), "budget_ms": 4000})
+    louts = run_harness(vh, "eval", lreqs)[0] if lreqs else {}
+    lib_ok = 0
+    by_hist = {}
+    for rid, (hi, k) in enumerate(lidx):
+        by_hist.setdefault(hi, {})[k] = louts.get(rid) or {"st": "missing"}
+    for hi, defs in enumerate(lib_hists):
+        full = by_hist[hi][len(defs) - 1]
+        if full.get("st") != "ok":
+            continue                      # an ill-typed history: nothing to compare
+        items = {}
+        for mm in full["val"].get("s", []):
+            t = dict(mm["t"])
+            items[int(t["@"]["n"])] = t["@item"]
+        bad = None
+        for k in range(len(defs) - 1):
+            pk = by_hist[hi][k]
+            if pk.get("st") != "ok":
+                continue
+            pit = {}
+            for mm in pk["val"].get("s", []):
+                t = dict(mm["t"])
+                pit[int(t["@"]["n"])] = t["@item"]
+            if json.dumps(pit.get(k), sort_keys=True) != json.dumps(items.get(k), sort_keys=True):
+                bad = k
+                break
+        if bad is None:
+            lib_ok += 1
+        else:
+            run.classify_failure(None, {"case": {"src": lib_program(defs, len(defs) - 1), "lib_defs": defs, "changed_value": "v%d" % bad},
+                                        "observed": {"when_created": by_hist[hi][bad]["val"], "at_the_end": full["val"]},
+                                        "oracle": "v%d evaluates to one value in the program that ends with its definition and to another once later values were derived (library-function histories)" % bad})
     lens = {}
     for ops, _, _, _ in hists:
         lens[len(ops)] = lens.get(len(ops), 0) + 1
     ok_general = sum(1 for c in gcases if gcodes.get(c["id"]) == 0)
     run.cov.update({"evaluations": len(hists) + len(gcases), "distinct_nontrivial": len(set(h[2] for h in hists)) + ok_general,
-                    "rule": "stream 1: branching histories of 3-14 derivations (with at the end/front/a hole/far away, without at either end or inside, offsets) over one string or one array of numbers (the same slice + offset + holes shape), every operation choosing any earlier value as parent; the program `let v0 = ..; let v1 = f(v_p); .. [v0..vn]` is evaluated by syntax.EvaluateExpr and every vi compared with the heap model (Sys/Heap.v, vm_compute); stream 2: histories over strings, arrays, bytes, dicts, sets and relations (with, without, ++, offsets, >>, |) against the reference interpreter; distinct by source; non-trivial = history evaluates and agrees",
+                    "rule": "stream 1: branching histories of 3-14 derivations (with at the end/front/a hole/far away, without at either end or inside, offsets) over one string or one array of numbers (the same slice + offset + holes shape), every operation choosing any earlier value as parent; the program `let v0 = ..; let v1 = f(v_p); .. [v0..vn]` is evaluated by syntax.EvaluateExpr and every vi compared with the heap model (Sys/Heap.v, vm_compute); stream 2: histories over strings, arrays, bytes, dicts, sets and relations (with, without, ++, offsets, >>, |) against the reference interpreter; stream 3: histories derived with //seq.split / join / sub / concat / trim_*, where, with / without, ++ and >> over arrays (every definition using any earlier value), each value compared between the program that ends with its definition and the whole program; distinct by source; non-trivial = history evaluates and agrees",
                     "samples": [h[2] for h in hists[:3]] + [c["src"] for c in gcases[:3]],
-                    "history_length_histogram": lens, "general_histories_agreeing": ok_general, "exhaustive": False})
+                    "history_length_histogram": lens, "general_histories_agreeing": ok_general,
+                    "library_histories": len(lib_hists), "library_histories_unchanged": lib_ok, "exhaustive": False})
     run.assumptions = ["github.com/arr-ai/frozen values are persistent (immutable)", "Go append/reslice semantics as modelled in Sys/Heap.v"]
     return run.finish(proof)
